@@ -376,6 +376,7 @@ class FragmentDefinition(SupportDirectives, ExecutableDefinition):
         "type_condition",
         "directives",
         "selection_set",
+        "source",
     )
 
     def __init__(
